@@ -146,7 +146,12 @@ func runC03(c *core.Ctx) {
 			judgeEntropy(make([]byte, n), "size")
 			judgeEntropy(bytes.Repeat([]byte{0xFF}, n), "size")
 		}
+		heavy := map[int]bool{}
 		for _, n := range lens {
+			heavy[n] = true
+		}
+		for n := 16; n <= 64; n += 4 { // every allowed length: bases and d1; the pair enumeration on the lengths of this tier
+			n := n
 			ramp := make([]byte, n)
 			for i := range ramp {
 				ramp[i] = byte(i*17 + 3)
@@ -167,7 +172,7 @@ func runC03(c *core.Ctx) {
 						e[pos] = byte(v)
 						judgeEntropy(e, "d1")
 					}
-					for q := pos + 1; q < n; q++ {
+					for q := pos + 1; q < n && heavy[n]; q++ {
 						for _, a := range []byte{0x00, 0x01, 0x7F, 0x80, 0xFF} {
 							for _, b := range []byte{0x00, 0x01, 0x7F, 0x80, 0xFF} {
 								if a == fill && b == fill {
@@ -396,6 +401,7 @@ func runC03(c *core.Ctx) {
 		c.Set("selection_states", states)
 		bip39.SetWordList("english")
 	}
+	bip39PluginPass(c, "C03", lists["english"], lists["japanese"])
 	c.NonTrivial(nontriv.Load())
 	c.SetExhaustive(true)
 	c.Assume = []string{"SHA-256 of the official english.txt / japanese.txt are the pinned constants", "reference: bit-array codec validated on BIP-39 vectors in its unit tests"}
